@@ -924,6 +924,33 @@ static void do_remote_free_batch(State& S) {
   check_errors(S, "remote free");
 }
 
+// forced abandonment (target_segments_per_thread > 0): single-block pages spread over several segments are freed by another thread (the frees are parked on the
+// owner's delayed list), then the owner needs fresh segments, which makes it abandon segments of its own -- whose pages it must drain, and may thereby free, first
+static void do_force_abandon_pattern(State& S) {
+  std::vector<vf::Blk*> bs;
+  const size_t n = 600 * KiB + (size_t)below(S, 900 * KiB);
+  const size_t cnt = 40 + (size_t)below(S, 40);
+  for (size_t i = 0; i < cnt; i++) { vf::Blk* b = do_alloc(S, EP_malloc, n); if (b) bs.push_back(b); }
+  // another thread frees most of them, in an order that leaves the FIRST pages of the segments among the freed ones
+  std::vector<void*> ptrs; std::vector<vf::Blk*> keep;
+  for (size_t i = 0; i < bs.size(); i++) {
+    if (chance(S, 1, 5)) { keep.push_back(bs[i]); continue; }
+    vf::Blk* b = bs[i]; S.sm.verify(b, "before remote free");
+    ptrs.push_back(b->p); S.sm.remove(b);
+  }
+  vf_cur_what = "remote_free_batch (force abandon pattern)";
+  try { std::thread t([&ptrs]() { for (void* p : ptrs) mi_free(p); }); t.join(); } catch (const std::system_error& e) { vf_trip("harness", "", "cannot create a thread: %s", e.what()); }
+  S.pending_remote = true; S.n_remote_batches++; S.n_free += ptrs.size();
+  // the owner now needs fresh segments
+  std::vector<vf::Blk*> more;
+  for (int i = 0; i < 3; i++) { vf::Blk* b = do_alloc(S, EP_malloc, 17 * 1024 * KiB + (size_t)below(S, 4096 * KiB)); if (b) more.push_back(b); }
+  for (size_t i = 0; i < 24; i++) { vf::Blk* b = do_alloc(S, EP_malloc, n); if (b) more.push_back(b); }
+  check_errors(S, "force abandon pattern");
+  for (vf::Blk* b : more) do_free(S, b);
+  for (vf::Blk* b : keep) do_free(S, b);
+  hmix(S, 0xE800 + cnt);
+}
+
 // blocks allocated by a thread of a profile (seq_os.cpp) that has terminated: enter them into the shadow model / take them out of the foreign count before freeing
 vf::Blk* accept_foreign(State& S, void* p, size_t n) {
   vf::Blk* b = accept_block(S, p, n, -1, 0, 0, false, EP_malloc);
@@ -1188,6 +1215,7 @@ void history_step(State& S) {
   if (walkprof && (S.op_index % 160) == 80) do_walk_pattern(S);
   if (walkprof && S.cfg.threads && S.cfg.abandon_ok && (S.op_index % 400) == 200) do_abandoned_pattern(S);
   if (S.cfg.profile == "heaps" && S.cfg.threads && !S.cfg.abandon_ok && (S.op_index % 500) == 250) do_tagged_destroy_pattern(S);
+  if (S.cfg.threads && S.cfg.abandon_ok && (S.op_index % 600) == 300) do_force_abandon_pattern(S);
   if (S.cfg.trace >= 2 && S.foreign_live == 0) check_conservation(S, "paranoid", "C12");
   if ((S.op_index & 255) == 255) check_conservation(S, "periodic", walkprof ? "C12" : "C12,C05,C10");
   if ((S.op_index & 511) == 511) { vf_cur_what = "verify_all"; S.sm.verify_all("periodic verification"); }
